@@ -336,6 +336,13 @@ def check_C03(ctx):
             call = 'RUN f WITH ' + ', '.join(str(5 + j) for j in range(na_)) + ' END'
             for src in (hdr + 'x1 := ' + call + '\n', hdr + 'PROGRAM g IN q DO x0 := q END\nx1 := RUN g WITH ' + call + ' END\n'):
                 cases.append({'defs': None, 'main': None, 'mainf': b'm', 'files': {b'm': src.encode()}, 'layout': 'arity', 'text': {'m': src}})
+    # jumps to a mark that is not set in the routine (a typo, another letter case, a mark of another routine), referenced by a
+    # conditional jump only, by a plain jump only, by both
+    for refs in (['IF a = 0 THEN GOTO done'], ['GOTO done'], ['IF a = 0 THEN GOTO done', 'GOTO done'], ['IF a = 0 THEN GOTO done', 'IF a = 1 THEN GOTO done']):
+        for mark in ('Done', 'don', 'other', None):
+            body = ' ; '.join(['a := 0'] + refs + ['a := 2'] + ([mark + ' : a := 3'] if mark else []))
+            for src in (body + '\n', 'PROGRAM p IN a DO ' + body + ' END\nother : x := RUN p WITH 0 END\n'):
+                cases.append({'defs': None, 'main': None, 'mainf': b'm', 'files': {b'm': src.encode()}, 'layout': 'arity', 'text': {'m': src}})
     # the built-in operators called by name, with every operand shape (only `variable, literal` is the built-in form; whatever
     # else is accepted must still be well-formed code)
     for nm in ('__INC__', '__DEC__'):
@@ -571,6 +578,7 @@ def check_C01(ctx, thms=None):
     cases += gen_programs(ctx, ctx.n(150, 1500), big=True, layouts=('canonical',))
     cases += nested_macro_loops()
     cases += arithmetic_pairs()
+    user_operator_programs(ctx)
     tri = [(c['mainf'], c['files'], c) for c in cases]
     a, b = front.corr_gen(ctx, tri, keys=['ok', 'code', 'maps'])
     val = translation_validation(ctx, cases, a, want_shape=True)
@@ -626,6 +634,28 @@ def check_C01(ctx, thms=None):
     ctx.sample(cases[0]['text'])
     ctx.sample(cases[-1]['text'])
     return finish(ctx)
+
+
+def user_operator_programs(ctx):
+    """user-defined operator macros of the same shape in different priority bins (precedence), with parentheses: end-to-end
+    values of expressions with shared operands"""
+    pre = ('DEFINE PRIO 10 <V> + <V> AS RUN add WITH $0 , $1 END END DEFINE\nDEFINE PRIO 20 <V> * <V> AS RUN mul WITH $0 , $1 END END DEFINE\n'
+           'DEFINE PRIO 5 ( <V> ) AS $0 END DEFINE\n'
+           'PROGRAM add IN a , b OUT a DO LOOP b DO a := a + 1 END END\nPROGRAM mul IN a , b OUT r DO LOOP b DO r := RUN add WITH r , a END END END\n'
+           'PROGRAM twice IN a OUT a DO a := RUN add WITH a , a END END\na := 2 ; b := 3 ; c := 4 ;\n')
+    exprs = [('r := a + b * c', 14), ('r := a * b + c * a', 14), ('r := b * c + a', 14), ('r := ( a + b ) * c', 20), ('r := RUN twice WITH 3 END + ( b * c )', 18),
+             ('r := a + b + c * a * b', 29)]
+    outs = impl(ctx, ['RUN %s 400000' % files_req(b'm', {b'm': (pre + e + '\n').encode()}) for e, _ in exprs])
+    for (e, want), o in zip(exprs, outs):
+        ctx.cov['evaluations'] += 1
+        src = {'m': pre + e + '\n'}
+        if is_crash(o) or fields(o).get('ok') != '1' or fields(o).get('done') != '1':
+            ctx.violation('wrong-values', 'a program with user-defined operator macros did not compile / run: ' + o[:200], src)
+            continue
+        ev = dict(kv for (_, e_) in envs(fields(o)['acts']) for kv in e_.items())
+        if ev.get('r', 0) != want:
+            ctx.violation('wrong-values', '`%s` with a = 2, b = 3, c = 4 (operators as user macros: * binds tighter than +) gives r = %s, expected %d' % (e, ev.get('r'), want), src)
+        ctx.nontrivial('user-operators:' + e)
 
 
 def check_C07(ctx, thms=None):
